@@ -16,6 +16,8 @@ pub enum Ent {
     Dir { name: String, kids: Vec<Ent> },
     /// symbolic link to a path (relative to the directory that holds the link)
     Link { name: String, target: String },
+    /// a second name (hard link) for a file of the same directory that was created before it
+    Hard { name: String, of: String },
 }
 
 pub fn build(root: &str, ents: &[Ent]) {
@@ -32,6 +34,16 @@ pub fn build(root: &str, ents: &[Ent]) {
             Ent::Link { name, target } => {
                 let _ = std::os::unix::fs::symlink(target, format!("{}/{}", root, name));
             }
+            Ent::Hard { .. } => {}
+        }
+    }
+    // second names last: their files exist by now (creation order of the directory entry is still the hard link's own)
+    for e in ents {
+        if let Ent::Hard { name, of } = e {
+            if std::fs::hard_link(format!("{}/{}", root, of), format!("{}/{}", root, name)).is_err() {
+                // no hard links on this file system: an ordinary copy keeps the tree's meaning
+                let _ = std::fs::copy(format!("{}/{}", root, of), format!("{}/{}", root, name));
+            }
         }
     }
 }
@@ -43,6 +55,7 @@ pub fn to_json(ents: &[Ent]) -> Value {
                 Ent::File { name, bytes } => json!({"file": name, "bytes": bytes.len(), "head": trunc(&String::from_utf8_lossy(&bytes[..bytes.len().min(80)]), 80)}),
                 Ent::Dir { name, kids } => json!({"dir": name, "entries": to_json(kids)}),
                 Ent::Link { name, target } => json!({"symlink": name, "target": target}),
+                Ent::Hard { name, of } => json!({"hard_link": name, "of": of}),
             })
             .collect(),
     )
@@ -173,9 +186,15 @@ pub struct RunOut {
 }
 
 pub fn run_solstat(cwd: &str, args: &[&str]) -> Result<RunOut, String> {
+    run_solstat_env(cwd, args, &[])
+}
+
+/// like `run_solstat`, with additional environment variables for the child
+pub fn run_solstat_env(cwd: &str, args: &[&str], envs: &[(String, String)]) -> Result<RunOut, String> {
     use std::io::Read;
     let mut child = Command::new(solstat_bin())
         .args(args)
+        .envs(envs.iter().map(|(k, v)| (k.as_str(), v.as_str())))
         .current_dir(cwd)
         .stdin(Stdio::null())
         .stdout(Stdio::null())
@@ -350,9 +369,33 @@ fn gen_tree_eligible_in(rng: &Rng, pool: &Pool, depth: usize, max_files: usize, 
             }
         }
     }
+    // a second name (hard link) for one of the files, eligible like the first
+    if rng.chance(1, 8) {
+        if let Some(Ent::File { name, .. }) = ents.iter().find(|e| matches!(e, Ent::File { .. })) {
+            let n = format!("Linked{}.sol", rng.below(20));
+            let of = name.clone();
+            if used.insert(n.clone()) {
+                ents.push(Ent::Hard { name: n, of });
+            }
+        }
+    }
+    // a large file: more than 64 KiB (now and then more than 1 MiB) of comment lines in front of ordinary content
+    if rng.chance(1, 16) {
+        let n = format!("Large{}.sol", rng.below(20));
+        if used.insert(n.clone()) {
+            let lines = if rng.chance(1, 6) { 30000 } else { 1900 };
+            let nl = if rng.chance(1, 3) { "\r\n" } else { "\n" };
+            let mut t = String::new();
+            for i in 0..lines {
+                t.push_str(&format!("// filler line {:06} x++; a >= b{}", i, nl));
+            }
+            t.push_str(&rng.pick(&pool.progs).1);
+            ents.push(Ent::File { name: n, bytes: t.into_bytes() });
+        }
+    }
     // clearly ineligible files with parseable, finding-rich content (they must simply be skipped)
     if rng.chance(1, 4) {
-        for n in ["README.md", "Helper.t.sol", "notes.txt", "Old.sol.bak"] {
+        for n in ["README.md", "Helper.t.sol", "notes.txt", "Old.sol.bak", "foundry.toml", "package.json", "remappings.txt"] {
             if rng.chance(1, 2) && used.insert(n.to_string()) {
                 let (_, text) = rng.pick(&pool.progs);
                 ents.push(Ent::File { name: n.to_string(), bytes: text.clone().into_bytes() });
@@ -360,7 +403,13 @@ fn gen_tree_eligible_in(rng: &Rng, pool: &Pool, depth: usize, max_files: usize, 
         }
     }
     for _ in 0..nd {
-        let n = if rng.chance(1, 8) { format!("{}.sol", ident(rng)) } else { ident(rng) };
+        let n = if rng.chance(1, 8) {
+            format!("{}.sol", ident(rng))
+        } else if rng.chance(1, 5) {
+            rng.ps(&["lib", "node_modules", "test", "script", "out", "mocks"]).to_string()
+        } else {
+            ident(rng)
+        };
         if used.insert(n.clone()) {
             ents.push(Ent::Dir { name: n, kids: gen_tree_eligible_in(rng, pool, depth + 1, max_files.min(4), max_dirs.min(2), twin) });
         }
@@ -515,7 +564,7 @@ pub fn c13_binary_part(ctx: &Ctx, acc: &mut Acc) {
         if reports.len() >= 2 {
             let nfiles = {
                 fn count(es: &[Ent]) -> usize {
-                    es.iter().map(|e| match e { Ent::File { .. } => 1, Ent::Dir { kids, .. } => count(kids), Ent::Link { .. } => 1 }).sum()
+                    es.iter().map(|e| match e { Ent::File { .. } => 1, Ent::Dir { kids, .. } => count(kids), Ent::Link { .. } | Ent::Hard { .. } => 1 }).sum()
                 }
                 count(&ents)
             };
